@@ -321,8 +321,11 @@ class C14(CheckBase):
         before; its file is replaced, then three threads use it at the same
         time.  Alone, each of them would get the new version."""
         name = ch.pick(sorted(FILES_V2))
-        shared = [{"kind": ch.pick(["file", "file", "cachedfile"]),
-                   "name": name, "auto": True}]
+        via_loader = ch.coin(0.25)
+        shared = [{"kind": "loader", "auto": True, "obs_name": name}] \
+            if via_loader else \
+            [{"kind": ch.pick(["file", "file", "cachedfile"]),
+              "name": name, "auto": True}]
         target = name
         if name in ("page.pt", "main.pt") and ch.coin(0.3):
             target = "lib.pt"
@@ -330,7 +333,9 @@ class C14(CheckBase):
         for t in range(3 if ch.coin(0.7) else 2):
             ops = []
             for _ in range(1 if ch.coin(0.7) else 2):
-                if name in FILE_MACROS and ch.coin(0.4):
+                if via_loader:
+                    ops.append(["load_render", 0, name, t + 1])
+                elif name in FILE_MACROS and ch.coin(0.4):
                     ops.append(["names", 0] if ch.coin(0.4) else
                                ["use", 0, ch.pick(FILE_MACROS[name]), t + 1])
                 else:
@@ -345,7 +350,7 @@ class C14(CheckBase):
                 if ch.coin(0.75) else None,
                 # (sometimes the deployer strikes again while the threads
                 # are at it: just before the n-th stat call of the phase)
-                "reload": dict({"target": target,
+                "reload": dict({"target": target, "name": name,
                                 "dt": ch.pick([10, 10, -10])},
                                **({"during": 1 + ch.choose(5)}
                                   if ch.coin(0.5) else {})),
@@ -564,7 +569,9 @@ class C14(CheckBase):
                     os.path.join(d, s["name"]), search_path=owned(),
                     **({"auto_reload": True} if s.get("auto") else {})))
             elif k == "loader":
-                objs.append(self.TemplateLoader(owned()))
+                objs.append(self.TemplateLoader(
+                    owned(), **({"auto_reload": True} if s.get("auto")
+                                else {})))
             elif k == "cached":
                 objs.append(zt.PageTemplate(
                     STRINGS[s["name"]],
@@ -584,7 +591,11 @@ class C14(CheckBase):
         if not reload:
             return
         for o in objs:
-            self.do_op([o], ["render", 0, 77], [None])
+            if hasattr(o, "load"):
+                self.do_op([o], ["load_render", 0, reload["name"], 77],
+                           [None])
+            else:
+                self.do_op([o], ["render", 0, 77], [None])
         self.deploy(world, sub, reload, FILES_V2)
         if reload.get("final") == 3:
             self.deploy(world, sub, reload, FILES_V3)
@@ -896,7 +907,9 @@ class C14(CheckBase):
         if case.get("observer") and during:
             for si, sh in enumerate(shared):
                 obs_exp3.append(self.expected(
-                    world, shared, ["render", si, 90 + si],
+                    world, shared,
+                    ["load_render", si, sh["obs_name"], 90 + si]
+                    if sh["kind"] == "loader" else ["render", si, 90 + si],
                     dict(reload, final=3)))
         sched, objs, results = phase("run", pol)
         owned_lists = list(self._owned)
